@@ -276,6 +276,9 @@ func (pg *Page) joinSink(sinkValues []string, remaining uint32, menuSizes [4]uin
 			tb.Reset()
 			l = len(v)
 			if count == 0 {
+				if netRemaining < menuSizes[2]+2 {
+					return "", 0, fmt.Errorf("capacity insufficient for sink with previous browse entry")
+				}
 				netRemaining -= (menuSizes[2] + 1)
 			}
 			count += 1
